@@ -406,19 +406,24 @@ class MultiServiceResponsePacket(SendUnitDataResponsePacket):
 
     def _parse_reply(self):
         super()._parse_reply()
-        num_replies = UINT.decode(self.data)
-        offset_data = self.data[2 : 2 + 2 * num_replies]
-        offsets = (UINT.decode(offset_data[i : i + 2]) for i in range(0, len(offset_data), 2))
-        start, end = tee(offsets)  # split offsets into start/end indexes
-        next(end)  # advance end by 1 so 2nd item is the end index for the first item
-        reply_data = [self.data[i:j] for i, j in zip_longest(start, end)]
+        try:
+            num_replies = UINT.decode(self.data)
+            offset_data = self.data[2 : 2 + 2 * num_replies]
+            offsets = (UINT.decode(offset_data[i : i + 2]) for i in range(0, len(offset_data), 2))
+            start, end = tee(offsets)  # split offsets into start/end indexes
+            next(end, None)  # advance end by 1 so 2nd item is the end index for the first item
+            reply_data = [self.data[i:j] for i, j in zip_longest(start, end)]
 
-        padding = bytes(46)  # pad the front of the packet so it matches the size of
-        # a read tag response, probably not the best idea but it works for now
+            padding = bytes(46)  # pad the front of the packet so it matches the size of
+            # a read tag response, probably not the best idea but it works for now
 
-        for data, request in zip(reply_data, self.request.requests):
-            response = request.response_class(request, padding + data)
-            self.responses.append(response)
+            for data, request in zip(reply_data, self.request.requests):
+                response = request.response_class(request, padding + data)
+                self.responses.append(response)
+        except Exception as err:
+            self.__log.exception("Failed to parse reply")
+            self.responses = []
+            self._error = self._error or f"Failed to parse reply - {err}"
 
     def __repr__(self):
         return f"{self.__class__.__name__}(values={_r(self.values)}, error={self.error!r})"
